@@ -145,7 +145,8 @@ package memory
 //@ loop 0 invariant [distinct] store.distinctIDs(peers)
 
 //@ func (*memoryStore).ActiveHosts
-//@ property C08 C10 C12
+//@ property C08 C10 C12 C15
+//@ safety on
 //@ implements store.PoolStore.ActiveHosts
 //@ requires wf(s) && !held(s.mu)
 //@ ensures [wf] wf(s) && !held(s.mu)
